@@ -258,10 +258,10 @@ def field_accesses(F, adt, field, tests=False, derived=False):
     return out
 
 
-def aggregates_of(F, adt, variant=None, tests=False):
-    """[(fn, bb, stmt)] construction sites of an ADT (variant)"""
+def aggregates_of(F, adt, variant=None, tests=False, derived=False):
+    """[(fn, bb, stmt)] construction sites of an ADT (variant); compiler-derived impls (Clone ..) are skipped"""
     out = []
-    for fn in F.all_bodies(tests=tests):
+    for fn in F.all_bodies(tests=tests, derived=derived):
         for bi, si, s in fn.assigns():
             a = s["rv"].get("agg")
             if isinstance(a, dict) and a.get("adt") == adt and (variant is None or a.get("variant") == variant):
